@@ -403,14 +403,27 @@ class DirWorld:
         for e in self.enum:
             events.append({"ev": "enum", "order": e})
         events.append({"ev": "touches", "names": collapse([t[0] for t in self.touches])})
-        # alpha: does the error reply name the DIRECTORY's own selector (the server refuses the directory itself,
-        # no child is involved)?  Observed from the log line of the reply.
-        dirsel = case["sb"] or "/"
-        selfref = status != "ok" and any(("'%s' does not exist" % dirsel) in ln for ln in r.log)
+        # control (observation on the implementation itself, never the text of the message): when the listing was NOT
+        # answered, is the directory's own selector refused independently of its children?  The same directory with
+        # every child removed is requested again through the same protocol form.
+        selfref = False
+        if status != "ok":
+            selfref = self.control_bare(proto, sel)
         events.append({"ev": "response", "status": status, "listing": items, "culprit": culprit, "dirrefused": bool(selfref)})
         extra = {"raw": r.out[:500].decode("latin-1"), "log": r.log[-3:], "escaped": r.escaped, "touches": list(self.touches), "pre_touches": list(self.pre),
                  "fired": list(self.fired), "cause": cause, "culprit_label": kid_label(case, culprit) if culprit else ""}
         return events, extra
+
+    def control_bare(self, proto, sel) -> bool:
+        """True iff the directory, emptied of all its children, is still not answered with a success listing."""
+        self.active = False
+        for n in self.envsub.REAL["listdir"](self.dirfs):
+            self._remove(self.dirfs + "/" + n)
+        self.dirty = True
+        data, tls = request_bytes(proto, sel, self.waptop)
+        r = self.w.request(data, tls=tls)
+        st, _items = lex(proto, r.out, self.footers, self.waptop)
+        return r.escaped is not None or st != "ok"
 
     def probe_omitted(self, proto, items):
         """C12: every child WITHOUT an injected fault or special kind whose selector is not in the lexed listing is
